@@ -16,6 +16,7 @@ CONSTANTS
   YieldK <- K_None
   TerminalQueries = TRUE
   AllowEmpty = FALSE
+  AddForms <- F_Hist
 
 INVARIANT WorkspaceWellFormed
 INVARIANT SplitPartitions
